@@ -287,6 +287,54 @@ func c03Group(st *numgen.Static, env *numgen.Env, sd numgen.Send, group []numgen
 					}
 				}
 			}
+			// an account named twice in the list, first under a cap and later plainly: what it gives beyond the
+			// cap comes from its later entry, so the simple entries in between must have given all they can
+			for i, sub := range x.Srcs {
+				mx, isMax := sub.(numgen.SrcMax)
+				if !isMax {
+					continue
+				}
+				inner, isAcc := mx.Src.(numgen.SrcAccount)
+				if !isAcc {
+					continue
+				}
+				av, ok := st.Eval(inner.Acc)
+				mv, ok2 := st.Eval(mx.Max)
+				if !ok || !ok2 {
+					continue
+				}
+				acc := string(av.(numgen.VAccount))
+				if acc == "world" || count[acc] != 2 {
+					continue
+				}
+				capAmt := mv.(numgen.VMonetary).Amount
+				for j := i + 1; j < len(x.Srcs); j++ {
+					later, isAcc := x.Srcs[j].(numgen.SrcAccount)
+					if !isAcc {
+						continue
+					}
+					lv, ok := st.Eval(later.Acc)
+					if !ok || string(lv.(numgen.VAccount)) != acc {
+						continue
+					}
+					if posted[acc] == nil || posted[acc].Cmp(capAmt) <= 0 {
+						break
+					}
+					for k := i + 1; k < j; k++ {
+						if ents[k] == nil {
+							continue
+						}
+						got := posted[ents[k].acc]
+						if got == nil {
+							got = new(big.Int)
+						}
+						if got.Cmp(ents[k].capacity) < 0 {
+							return "C03/ordered-source-skipped", fmt.Sprintf("ordered sources: %s gave %v, more than the %v its capped entry %d allows, so its later entry %d contributed although entry %d (%s) gave only %v of the %v it can give\ngroup: %s", acc, posted[acc], capAmt, i, j, k, ents[k].acc, got, ents[k].capacity, numgen.PostingsString(group))
+						}
+					}
+					break
+				}
+			}
 		case numgen.SrcAllotment:
 			for _, sub := range x.Srcs {
 				if sig, msg := walk(sub); sig != "" {
